@@ -164,7 +164,7 @@ func vhTree(gen vhValGen, shapes []int) *vhCond {
 	if shape == 3 { // NOT ( leaf )
 		return &vhCond{kind: 5, l: l, exprNode: &ast.UnaryOperationExpr{Op: opcode.Not, V: &ast.ParenthesesExpr{Expr: l.exprNode}}}
 	}
-	r := vhLeaf(gen, vs.Tier() >= 1 && shape <= 2)
+	r := vhLeaf(gen, false)
 	mk := func(and bool, a, b *vhCond) *vhCond {
 		if and {
 			return &vhCond{kind: 3, l: a, r: b, exprNode: &ast.BinaryOperationExpr{Op: opcode.LogicAnd, L: a.exprNode, R: b.exprNode}}
@@ -231,7 +231,7 @@ func vhC01Check(rt *router.Router, c *vhCond, id, other int64, key interface{}) 
 	vs.Cover("C01/matching-row-routed")
 }
 
-//verif:harness prop=C01 bounds="range rule, 3 tables of 100 rows (locations [2,1]); condition: leaf, NOT(leaf), leaf AND leaf2, leaf OR leaf2 (thorough: leaf2 from the full menu, and (l AND r) OR x, (l OR r) AND x); leaf: id OP v / v OP id for the six comparison operators, [NOT] IN (v1,v2), [NOT] BETWEEN v1 AND v2, other = v; leaf2: id = v, id < v, other = v, v <= id, id IN (v1,v2); all values symbolic int64 in -5..305; row (id, other) any int64"
+//verif:harness prop=C01 maxpaths=2000000 timeout=2400 bounds="range rule, 3 tables of 100 rows (locations [2,1]); condition: leaf, NOT(leaf), leaf AND leaf2, leaf OR leaf2 (thorough: also (l AND r) OR x, (l OR r) AND x); leaf: id OP v / v OP id for the six comparison operators, [NOT] IN (v1,v2), [NOT] BETWEEN v1 AND v2, other = v; leaf2: id = v, id < v, other = v, v <= id, id IN (v1,v2); all values symbolic int64 in -5..305; row (id, other) any int64"
 func Harness_C01_Range() {
 	rt := vhRouter(&models.Shard{DB: "db", Table: "t", Type: models.ShardRange, Key: "id", Locations: []int{2, 1}, Slices: []string{"s0", "s1"}, TableRowLimit: 100})
 	c := vhTree(vhIntGen(-5, 305), vhShapes())
@@ -250,7 +250,7 @@ func vhHasReversedNotBetween(c *vhCond) bool {
 	return vs.Or(vhHasReversedNotBetween(c.l), vhHasReversedNotBetween(c.r))
 }
 
-//verif:harness prop=C01 bounds="hash and mod rules with 4 tables (locations [2,2]); same condition grammar; values and row any int64"
+//verif:harness prop=C01 maxpaths=2000000 timeout=2400 bounds="hash and mod rules with 4 tables (locations [2,2]); same condition grammar; values and row any int64"
 func Harness_C01_HashMod() {
 	tp := []string{models.ShardHash, models.ShardMod}[vs.Choice("type", 2)]
 	rt := vhRouter(&models.Shard{DB: "db", Table: "t", Type: tp, Key: "id", Locations: []int{2, 2}, Slices: []string{"s0", "s1"}})
@@ -291,4 +291,9 @@ func Harness_C01_Dates() {
 	c := vhTree(vhDateGen, []int{0, 3}) // AND / OR merging does not depend on the rule type: Harness_C01_Range
 	id, text := vhDate("row", true)
 	vhC01Check(rt, c, id, vs.Int64("row.other"), text)
+}
+
+// vhEqNode is the AST of "id = k".
+func vhEqNode(k int64) ast.ExprNode {
+	return &ast.BinaryOperationExpr{Op: vhOps[0], L: vhCol("id"), R: vhVal(k)}
 }
